@@ -520,6 +520,17 @@ def run(chk):
     ctxs = make_contexts(chk.rng, 5 if q else 10)
     ship = shipped_contexts([("cyp1a1", "hg19")] if q else [("cyp1a1", "hg19"), ("cyp1a1", "hg38"), ("nudt15", "hg19"), ("cyp2a13", "hg38"), ("nat1", "hg19")])
     skipnone = detect_skipnone(chk, ctxs[0])
+    if chk.model_available():
+        # premises of C16_vcf_support_mnp_one_record / _adjacent (decidable, VcfMnpProofs.mnp_record_ok / adj_ok) on every
+        # catalogued multi-substitution of every gene used: theorem premises, counted so that the evidence says where they hold
+        allc = ctxs + ship
+        oks = common.coq_eval(IMPORTS + ["PileupProofs", "VcfInProofs", "VcfMnpProofs"],
+                              [f"o_list (fun m => OL [o_bool (mnp_record_ok {c.ident} m); o_bool (adj_ok {c.ident} m)]) (g_all_multi {c.ident})" for c in allc],
+                              preamble="".join(c.coq_def() for c in allc))
+        for c, v in zip(allc, oks):
+            for one, adj in v:
+                chk.count("side-conditions", "mnp_record_ok-" + ("holds" if one == 1 else "does-not-hold"))
+                chk.count("side-conditions", "adj_ok-" + ("holds" if adj == 1 else "does-not-hold"))
     chk.notes.append(f"[C16] the tree {'ignores' if skipnone else 'dies on'} records get_mut cannot express (witness: one-record MNP, heterozygous)")
     cases = []
     corpus = os.path.join(common.VERIF, "corpus", "C16.json")
